@@ -44,8 +44,8 @@ CLAIMED = {
 
  "C18": dict(engine=K, category="model_checking", design="6 C18",
    technique="symbolic execution of Numba typed IR + z3 (QF_BV for linear/heavy hitters; QF_FPBV for _log_counter; NRA real-idealised with math-mode integers for log merges, _func and _find_base plumbing)",
-   text="From arbitrary states incl. cells at any distance from the ceiling: no linear add/merge lowers an estimate, estimates at 2^32-1 stay, sums saturate; a heavy-hitter cell re-adding or merging its own key ends at min(sum, 2^32-1); _log_counter is monotone, never passes the ceiling and stays at it (symbolic counter/num_reserved/base); merged log counters are never below an input and reach the ceiling from max_count on (real-idealised); _func(b)=0 is exactly 'the ceiling decodes to max_count'; _find_base performs 200 Newton steps on exactly the constructor's parameters (a narrowing cast shows up) and raises ValueError iff the last iterate < 1.000000001.",
-   note="Convergence of the Newton iteration and the exact set of configurations rejected by the constructor are outside the claim (numeric iteration through **); plumbing counterexamples are replayed on the real constructors, which must either raise ValueError or decode the ceiling to max_count."),
+   text="From arbitrary states incl. cells at any distance from the ceiling: no linear add/merge lowers an estimate, estimates at 2^32-1 stay, sums saturate; a heavy-hitter cell re-adding or merging its own key ends at min(sum, 2^32-1); _log_counter is monotone, never passes the ceiling and stays at it (symbolic counter/num_reserved/base); merged log counters are never below an input and reach the ceiling from max_count on (real-idealised); (decoded ceiling - max_count)*(b-1) == _func(b); _find_base calls _func/_funcprime on exactly the constructor's parameters (a narrowing cast shows up), every non-returning outcome raises ValueError, and the returning path carries the certificate |_func(returned base)| <= 1e-6*max_count*(base-1): every accepted configuration decodes its ceiling to max_count (relative 1e-6) whatever the Newton iteration did. This obligation found defect F4 on the pinned tree (fixed in /repo b4405f8).",
+   note="Which configurations the constructor rejects is not claimed (only that accepted ones are right); floats idealised as reals in the certificate lemma; counterexamples are replayed on the real constructors over a grid that includes num_reserved up to the counter maximum."),
 
  "C17": dict(engine=K, category="model_checking", design="6 C17",
    technique="symbolic execution of Numba typed IR + z3 (real-idealised: LRA/NRA, uninterpreted log/pow, np.interp as an uninterpreted function of (x, tables) with its definition instantiated on demand, symbolic 3-knot tables, math-mode integers): result term == reference decision tree; shipped tables as solver constants",
